@@ -23,12 +23,22 @@ Theorem ttns_add_dense : forall (R : CRing) (a b : ttree R),
 Proof. exact TtnsProofs.ttns_add_dense. Qed.
 Print Assumptions ttns_add_dense.
 
-(* operands with prefactors (coeff): folded into the root tensor, the represented vector is ca*A + cb*B *)
+(* different prefactors (coeff): folded into the root tensor, the represented vector is ca*A + cb*B *)
 Theorem ttns_add_coeff_dense : forall (R : CRing) (ca cb : R) (a b : ttree R),
   tshape R a = tshape R b ->
   forall s p, tamp R (tadd_coeff R ca cb a b) s p = radd R (rmul R ca (tamp R a s p)) (rmul R cb (tamp R b s p)).
 Proof. exact TtnsProofs.ttns_add_coeff_dense. Qed.
 Print Assumptions ttns_add_coeff_dense.
+
+(* TTNS.add on states with prefactors, both branches (common prefactor kept / different prefactors folded into the
+   root): coeff' * psi' = ca * A + cb * B;  ceq is any sound equality test of the prefactors *)
+Theorem ttns_add_state_dense : forall (R : CRing) (ceq : R -> R -> bool) (ca cb : R) (a b : ttree R),
+  (ceq ca cb = true -> ca = cb) -> tshape R a = tshape R b ->
+  forall s p,
+  rmul R (fst (tadd_state R ceq ca cb a b)) (tamp R (snd (tadd_state R ceq ca cb a b)) s p) =
+  radd R (rmul R ca (tamp R a s p)) (rmul R cb (tamp R b s p)).
+Proof. exact TtnsProofs.ttns_add_state_dense. Qed.
+Print Assumptions ttns_add_state_dense.
 
 Theorem ttns_scale_dense : forall (R : CRing) (c : R) (t : ttree R) s p,
   tamp R (tscale R c t) s p = rmul R c (tamp R t s p).
